@@ -30,7 +30,8 @@
  *   drain i s [CAP [NEINTR]]       call the handler until it returns <= 0 (as _rsh_thread's loop does)
  *                     CAP (a number; `-` = none): the descriptor delivers at most CAP bytes during each of these
  *                     handler calls (short read; 0 = EAGAIN although data is there); NEINTR: the first NEINTR
- *                     read(2) calls of each handler call fail with EINTR
+ *                     read(2) calls of each handler call fail with EINTR; CAP = `E`: the read fails with EIO
+ *                     (the handler prints its diagnostic through err() and closes the descriptor)
  *   run   i s HEX..   a whole stream at once (the model's runStream): one handler call after each
  *                     chunk, close, drain, this stream's _flush_output     -> run <th->rc|-> | S:HEX ...
  *   rcperr i e POPT RV HEX..  pdcp/rpdcp: the real _parallel_copy() of target i (pcp_Popt = POPT, the copy
@@ -88,6 +89,7 @@ int __wrap_fputs(const char *s, FILE *f)
 static int fault_fd = -1;
 static long fault_budget = -1;      /* < 0: no limit */
 static int fault_eintr;
+static int fault_eio;               /* the next read fails with EIO */
 static long fault_reads;            /* read(2) calls seen on fault_fd during the handler call */
 
 ssize_t __real_read(int fd, void *buf, size_t n);
@@ -100,6 +102,11 @@ ssize_t __wrap_read(int fd, void *buf, size_t n)
     if (fault_eintr > 0) {
         fault_eintr--;
         errno = EINTR;
+        return -1;
+    }
+    if (fault_eio) {
+        fault_eio = 0;
+        errno = EIO;
         return -1;
     }
     if (fault_budget < 0)
@@ -285,11 +292,13 @@ static int call_handler_faulty(thd_t *th, int s, const char *cap, const char *ne
     int rc;
     fault_fd = (s == 0) ? th->rcmd->fd : th->rcmd->efd;
     fault_budget = (cap && cap[0] >= '0' && cap[0] <= '9') ? atol(cap) : -1;
+    fault_eio = (cap && cap[0] == 'E');
     fault_eintr = neintr ? atoi(neintr) : 0;
     rc = call_handler(th, s);
     fault_fd = -1;
     fault_budget = -1;
     fault_eintr = 0;
+    fault_eio = 0;
     return rc;
 }
 
